@@ -24,8 +24,9 @@ def std_runs(profiles, nq=120, nt=1500, extra_feats=('nofin', 'noweak', 'noauto'
     quick = [('full', False, profiles, nq)]
     # a small sample of the other build configurations on every run: changes guarded by
     # cfg(not(feature = ...)) or visible only without debug assertions must not wait for the thorough tier
-    for f in extra_feats[:2]:
-        quick.append((f, False, profiles, max(8, nq // 5)))
+    for k, f in enumerate(extra_feats):
+        # the first two get a fifth of the programs, the others a small sample (plus the corpus, which runs in every configuration)
+        quick.append((f, False, profiles, max(8, nq // 5) if k < 2 else max(6, nq // 12)))
     quick.append(('full', True, profiles, max(8, nq // 5)))
     quick.append(('pedantic', False, profiles, max(8, nq // 5)))
     thorough = [('full', False, profiles, nt), ('full', True, profiles, nt // 2)]
@@ -54,9 +55,9 @@ PROPS = {
              explanation='Resurrection: safety is C01 over programs with resurrecting finalizers; bounded passes by construction.', assumptions=GENERIC_ASSUME),
  'C07': dict(level='proof', state=True, monitors={'REACH', 'C07', 'C01', 'C03', 'C05', 'C12'}, runs=std_runs([('faults', False), ('faults', True)]),
              explanation='Flags-idle invariant over the model + fault-injected correspondence (every callback kind, fuse values 1..6).', assumptions=GENERIC_ASSUME),
- 'C08': dict(level='proof', state=False, monitors={'C01'}, runs=std_runs([('weak', False), ('unwrap', False), ('cyclic', False)], extra_feats=('weaknoclean', 'nofin')),
+ 'C08': dict(level='proof', state=False, monitors={'C01'}, runs=std_runs([('weak', False), ('unwrap', False), ('cyclic', False)], extra_feats=('weaknoclean', 'nofin', 'noauto')),
              explanation='Upgrade characterisation over the model + correspondence of every upgrade result.', assumptions=GENERIC_ASSUME),
- 'C09': dict(level='proof', state=False, monitors={'C09', 'C03'}, runs=std_runs([('weak', False), ('unwrap', False), ('cyclic', False)], extra_feats=('weaknoclean', 'nofin')),
+ 'C09': dict(level='proof', state=False, monitors={'C09', 'C03'}, runs=std_runs([('weak', False), ('unwrap', False), ('cyclic', False)], extra_feats=('weaknoclean', 'nofin', 'noauto')),
              explanation='Weak/strong count exactness over the model + side-record pairing monitor.', assumptions=GENERIC_ASSUME),
  'C10': dict(level='proof', state=False, monitors={'C01', 'C03'}, runs=std_runs([('clean', False)], extra_feats=('nofin',)),
              explanation='Cleaner actions: at-most-once over the model + correspondence including action order.', assumptions=GENERIC_ASSUME),
@@ -64,13 +65,13 @@ PROPS = {
              explanation='Buffer/byte-count invariant over the model + buffer walk and allocator totals on the real crate.', assumptions=GENERIC_ASSUME),
  'C12': dict(level='proof', state=False, monitors={'C12', 'C07'}, runs=std_runs([('fin', False), ('faults', False), ('all', True)]),
              explanation='Flag discipline over the model (generated is_tracing formula) + flags sampled in every callback on the real crate.', assumptions=GENERIC_ASSUME),
- 'C13': dict(level='proof', state=False, monitors={'C03', 'C01'}, runs=std_runs([('unwrap', False)], extra_feats=('weaknoclean', 'nofin')),
+ 'C13': dict(level='proof', state=False, monitors={'C03', 'C01'}, runs=std_runs([('unwrap', False)], extra_feats=('weaknoclean', 'nofin', 'noauto')),
              explanation='try_unwrap single-step characterisation over the model + correspondence.', assumptions=GENERIC_ASSUME),
- 'C14': dict(level='proof', state=False, monitors={'C14', 'C03', 'C01'}, runs=std_runs([('cyclic', False), ('cyclic', True)], extra_feats=('weaknoclean', 'nofin')),
+ 'C14': dict(level='proof', state=False, monitors={'C14', 'C03', 'C01'}, runs=std_runs([('cyclic', False), ('cyclic', True)], extra_feats=('weaknoclean', 'nofin', 'noauto')),
              explanation='new_cyclic over the model + correspondence with closure/trigger faults.', assumptions=GENERIC_ASSUME),
  'C15': dict(level='proof', state=True, monitors={'C11'}, runs=std_runs([('auto', True)], extra_feats=('nofin',)),
              explanation='Trigger/threshold policy: theorem on the generated should_collect/adjust + threshold compared after every command.', assumptions=GENERIC_ASSUME + ['f64 products are modelled exactly (round-to-nearest-even at 53 bits) for thresholds 100*2^k and allocated bytes below 2^53']),
- 'C16': dict(level='proof', state=False, monitors={'C03', 'C01'}, runs=std_runs([('limits', False)], nq=40, nt=300, extra_feats=('weaknoclean', 'nofin')),
+ 'C16': dict(level='proof', state=False, monitors={'C03', 'C01'}, runs=std_runs([('limits', False)], nq=40, nt=300, extra_feats=('weaknoclean', 'nofin', 'noauto')),
              explanation='Saturation: exhaustive-word theorems on the generated counter code + machine correspondence at the 16382/32767 boundaries.', assumptions=GENERIC_ASSUME),
  'C17': dict(level='proof', state=False, monitors=set(), runs=R([], []),
              explanation='Theorem over the container model (Containers.v) + complete probe grid on the real impls.', assumptions=['Containers.v is a hand-written model of src/trace.rs; tie = probe grid']),
